@@ -15,7 +15,8 @@ RULE = ('exhaustive: all vertex lists of length 0..4 over the 3x2 integer grid x
         'collinear runs, zero-length closing segment, reversals, vertices projecting beyond either segment end) with '
         'tolerances incl. 0, negatives and exact boundary values; float stream (random doubles, near-collinear runs) and '
         'large-magnitude float stream (chord/tolerance up to 1e12, translations up to 1e12*tol, sharp reversals overshooting '
-        'either chord end by about the tolerance), judged against exact Fractions of the float inputs. '
+        'either chord end by about the tolerance; chords of dyadic length 1e6..1e9*tol with interior vertices projecting '
+        'INSIDE the chord at offsets 0.25..4*tol), judged against exact Fractions of the float inputs. '
         'every 3rd exact / 4th float case also runs three two-call sequences on ONE list object (reference->predicate, '
         'reference->supersample, predicate->reference), each call judged against the list as it was before the sequence; '
         'every call into the code under test gets its own fresh list, compared with a snapshot afterwards. '
@@ -402,6 +403,29 @@ def gen_float_large(rng):
     return pts, tol
 
 
+def gen_float_long_inside(rng):
+    """a chord of dyadic length 1e6..1e9 * tol (axis or diagonal: the inputs are exact) with interior vertices that
+    project INSIDE the chord at perpendicular offsets around the tolerance (0.25..4 * tol): the exact verdict is
+    decided with a wide margin, a cancelling distance formula loses the offset against the length"""
+    tol = rng.choice([1.0, 0.5, 2.0, 0.25])
+    L = tol * rng.choice([1, 3, 5, 7]) * 2.0 ** rng.randint(20, 30)
+    while L > 1e9 * tol:
+        L /= 2
+    rot = rng.choice([lambda s, t: (s, t), lambda s, t: (-t, s), lambda s, t: (-s, -t), lambda s, t: (s - t, s + t)])
+    ox = rng.choice([0.0, 0.0, tol * 2.0 ** rng.randint(4, 24) * rng.choice([-1, 1])])
+    mid = []
+    for _ in range(rng.randint(1, 3)):
+        s = L * rng.randint(1, 15) / 16
+        t = tol * rng.choice([0.25, 0.5, 0.75, 1.0, 1.5, 2.0, 4.0, rng.randint(1, 32) / 8]) * rng.choice([-1, 1])
+        mid.append((s, t))
+    mid.sort()
+    pts = [(0.0, 0.0)] + mid + [(L, 0.0)]
+    pts = [(rot(s, t)[0] + ox, rot(s, t)[1]) for s, t in pts]
+    if rng.random() < 0.3:
+        pts = [(pts[0][0] - 3 * tol, pts[0][1] + 7 * tol)] + pts + [(pts[-1][0] + 9 * tol, pts[-1][1] - 40 * tol)]
+    return pts, tol
+
+
 def run(ctx):
     from plotink import plot_utils as pu
     rng = ctx.rng
@@ -513,6 +537,11 @@ def run(ctx):
     for _ in range(ctx.n(6000)):
         pts, tol = gen_float_large(rng)
         float_case(ctx, pu, pts, tol, fstats, 'float:large')
+    # long chord, interior vertex inside the chord's span at an offset around the tolerance (pinned, then generated)
+    float_case(ctx, pu, [(0.0, 0.0), (2.0 ** 27, 1.0), (2.0 ** 28, 1.0), (3 * 2.0 ** 27, 0.0)], 0.5, fstats, 'float:long-inside')
+    for _ in range(ctx.n(1500)):
+        pts, tol = gen_float_long_inside(rng)
+        float_case(ctx, pu, pts, tol, fstats, 'float:long-inside')
     for pts, tol in replay_float:
         fstats['n'] = 0                      # replayed cases always run the same-list sequences
         float_case(ctx, pu, pts, tol, fstats)
